@@ -3,7 +3,7 @@
    Cif/LexProofs.v (written values are read back as they were). Model: Cif/Quote.v, Write.v, Buf.v, Lex.v
    (mirrors cifdoc.hpp / to_cif.hpp / the value-level rules of cif.hpp after the three repairs);
    Cif/Legacy.v keeps the snapshot's behaviour for the *_refuted_before_fix statements. *)
-From GV Require Cif.JsonNum Cif.JsonNumProofs Cif.JsonNumCif Num.DecParse.
+From GV Require Cif.JsonNum Cif.JsonNumProofs Cif.JsonNumCif Cif.JsonNumConv Num.DecParse.
 From GV Require Import Cif.Quote Cif.Write Cif.Buf Cif.Lex Cif.Legacy Cif.QuoteProofs Cif.BufProofs
   Cif.LexProofs Cif.LayoutProofs Cif.Sequence Cif.Tokens Cif.DocTokens Cif.DocParse.
 Local Open Scope Z_scope.
@@ -196,3 +196,17 @@ Theorem C01_every_cif_number_is_a_json_number : forall s,
   DecParse.is_cif_numb s = true -> JsonNum.json_number (JsonNum.write_as_number s) = true.
 Proof. exact JsonNumCif.cif_number_written_as_json. Qed.
 Print Assumptions C01_every_cif_number_is_a_json_number.
+
+(* the two descriptions of a CIF number coincide: a string is accepted by the recogniser of property C12 exactly when it is
+   a rendering of well-formed parts of the production Numeric (so the theorems above lose nothing by speaking of parts) *)
+Theorem C01_numeric_production_is_the_recogniser : forall s,
+  DecParse.is_cif_numb s = true <->
+  exists sg d1 dot d2 ex su, s = JsonNumProofs.render sg d1 dot d2 ex su /\
+    JsonNumProofs.is_sign sg /\ JsonNumProofs.digits d1 /\ JsonNumProofs.digits d2 /\ (dot = false -> d2 = []) /\
+    (d1 <> [] \/ d2 <> []) /\ JsonNumProofs.is_exp ex /\ JsonNumProofs.is_su su.
+Proof.
+  intros s. split.
+  - exact (JsonNumCif.cif_numb_is_render s).
+  - intros [sg [d1 [dot [d2 [ex [su [-> [H1 [H2 [H3 [H4 [H5 [H6 H7]]]]]]]]]]]]]. apply JsonNumConv.render_is_cif_numb; assumption.
+Qed.
+Print Assumptions C01_numeric_production_is_the_recogniser.
